@@ -2924,7 +2924,7 @@ where
                                 }
                                 self.publish_recv.insert(packet_id);
 
-                                if !self.qos2_publish_handled.insert(packet_id) {
+                                if self.qos2_publish_handled.contains(&packet_id) {
                                     already_handled = true;
                                 }
                                 if self.status == ConnectionStatus::Connected
@@ -2997,6 +2997,12 @@ where
                                     topic_alias_recv.insert_or_update(packet.topic_name(), ta);
                                 }
                             }
+                        }
+
+                        // Mark a QoS 2 message as handled only once it has passed validation
+                        if packet.qos() == Qos::ExactlyOnce && !already_handled {
+                            self.qos2_publish_handled
+                                .insert(packet.packet_id().unwrap());
                         }
 
                         // Send response packets
